@@ -408,6 +408,7 @@ import hashmon  # noqa: E402,F401
 import codecmon  # noqa: E402,F401
 import ecdsamon  # noqa: E402,F401
 import blsmon  # noqa: E402,F401
+import h2cmon  # noqa: E402,F401
 
 
 # ------------------------------------------------------------------------------------------
